@@ -115,6 +115,10 @@ def run(ctx, rep):
     c05.resolution_rules(ctx, rep, "C07")
     import common_g
     rep.floor("IN", "grammar actions feeding this rule", common_g.emit_inputs(ctx, rep, "C07"), 5)
+    import loopstate
+    loopstate.rule(ctx, rep, "C07", ['validation::check_method_args', 'validation::check_methods', 'validation::get_requirement_for_arg_direction'])
+    import pipeline
+    pipeline.rule(ctx, rep, "C07", ['resolve_types', 'check_methods'])
     rep.assumptions += ["TB-1 rustc MIR", "TB-4 the tabulator (validated by selftest mutants)",
                         "per-argument loop carries no state between iterations other than the append-only diagnostics vector (checked: only effects are pushes)"]
 
